@@ -105,6 +105,8 @@ class Interp:
             b = ctx.get("bound")
             if b and e.id in b:
                 return b[e.id]
+            if e.id == "return_value" and "result" in ctx:
+                return ctx["result"]
             if e.id in env:
                 return env[e.id]
             if e.id == "result":
